@@ -343,6 +343,9 @@ func ruleConsoleLen(r *Run, p *Prog) {
 		if !isRet || len(ret.Results) != 2 {
 			continue
 		}
+		if pa.Infeasible() {
+			continue
+		}
 		// success path: reaches the final WriteTo(w.Out)
 		wrote := false
 		for _, in := range pa.Instrs() {
